@@ -98,6 +98,30 @@ func (i *interpreter) yield(what string) {
 	i.switchTo(o[k-1])
 }
 
+// giveUp models runtime.Gosched: the current thread stays runnable and the
+// next runnable thread (round-robin by id) runs.
+func (i *interpreter) giveUp() {
+	s := i.sched
+	if s == nil || len(s.threads) == 1 {
+		return
+	}
+	if s.dead {
+		panic(schedDead{})
+	}
+	if s.explore {
+		i.yield("gosched")
+		return
+	}
+	n := len(s.threads)
+	for k := 1; k < n; k++ {
+		t := s.threads[(s.cur.id+k)%n]
+		if t.state == 0 {
+			i.switchTo(t)
+			return
+		}
+	}
+}
+
 // block parks the current thread (which cannot proceed) and runs another.
 func (i *interpreter) block(why string) {
 	s := i.sch()
